@@ -8,5 +8,7 @@ open SamVerif.Scope
 #print axioms rename_tree_commutes
 #print axioms rename_member_commutes
 #print axioms rename_preserves_resolution
+#print axioms rename_module_commutes
+#print axioms rename_module_preserves_resolution
 #print axioms rename_preserves_resolution_partial
 #print axioms fresh_check_unsound_counterexample
